@@ -145,9 +145,9 @@ macro_rules! adapter_harness {
         }
     };
 }
-// @harness props=C14,C17 tier=quick reach=off bound="Mutex<T> backend adapter: one symbolic method of {num_queues, max_queue_size, features, acked_features, protocol_features, reset_device, set_event_idx, get_config, set_config, queues_per_thread, handle_event} with symbolic arguments" stubs="handle_alloc_error"
+// @harness props=C02,C14,C17 tier=quick reach=off bound="Mutex<T> backend adapter: one symbolic method of {num_queues, max_queue_size, features, acked_features, protocol_features, reset_device, set_event_idx, get_config, set_config, queues_per_thread, handle_event} with symbolic arguments" stubs="handle_alloc_error"
 adapter_harness!(c14_u_adapter_mutex, Mutex::new(VBM));
-// @harness props=C14,C17 tier=quick reach=off bound="RwLock<T> backend adapter: as c14_u_adapter_mutex" stubs="handle_alloc_error"
+// @harness props=C02,C14,C17 tier=quick reach=off bound="RwLock<T> backend adapter: as c14_u_adapter_mutex" stubs="handle_alloc_error"
 adapter_harness!(c14_u_adapter_rwlock, RwLock::new(VBM));
-// @harness props=C14,C17 tier=quick reach=off bound="Arc<Mutex<T>> backend adapter (Arc<T> over Mutex<T>): as c14_u_adapter_mutex" stubs="handle_alloc_error"
+// @harness props=C02,C14,C17 tier=quick reach=off bound="Arc<Mutex<T>> backend adapter (Arc<T> over Mutex<T>): as c14_u_adapter_mutex" stubs="handle_alloc_error"
 adapter_harness!(c14_u_adapter_arc_mutex, Arc::new(Mutex::new(VBM)));
